@@ -14,8 +14,10 @@ import (
 // shape (ctx, *Msg…) the classified statements up to and including the first guard.
 //
 //	unwrap        ctx := sdk.UnwrapSDKContext(goCtx)   (and similar pure conversions)
-//	authority     if <keeper authority> != <msg>.Authority { return … }  or
-//	              if err := X.ValidateAuthority(<msg>.Authority); err != nil { return … }
+//	authority:cmp                if <keeper authority> != <msg>.Authority { return … }
+//	                             (the handler itself compares the two strings exactly)
+//	authority:ValidateAuthority  if err := X.ValidateAuthority(<msg>.Authority); err != nil { return … }
+//	                             (how that compares is in the helper's body, see guardBodies)
 //	perm:<Fn>(<args>)   if !k.<Fn>(…) { return … }  where Fn starts with Can
 //	other:<src prefix>  anything else
 func init() {
@@ -75,7 +77,7 @@ func emitHandlers(c *Ctx) (string, error) {
 				hf.HasAdminField = adminFields[req]
 				for _, st := range fd.Body.List {
 					k := classifyStmt(c, st, msgVar)
-					if k == "authority" || strings.HasPrefix(k, "perm:") {
+					if strings.HasPrefix(k, "authority:") || strings.HasPrefix(k, "perm:") {
 						hf.Guard = k
 						break
 					}
@@ -220,7 +222,7 @@ func classifyStmt(c *Ctx, st ast.Stmt, msgVar string) string {
 			// if A != B { return err }
 			if be, ok := s.Cond.(*ast.BinaryExpr); ok && be.Op == token.NEQ && s.Init == nil {
 				if (isMsgAuthority(be.X, msgVar) && isKeeperAuthority(be.Y, msgVar)) || (isMsgAuthority(be.Y, msgVar) && isKeeperAuthority(be.X, msgVar)) {
-					return "authority"
+					return "authority:cmp"
 				}
 			}
 			// if err := X.ValidateAuthority(msg.Authority); err != nil { return err }
@@ -228,7 +230,7 @@ func classifyStmt(c *Ctx, st ast.Stmt, msgVar string) string {
 				if call, ok := as.Rhs[0].(*ast.CallExpr); ok {
 					if sel, ok := call.Fun.(*ast.SelectorExpr); ok && sel.Sel.Name == "ValidateAuthority" && len(call.Args) == 1 && isMsgAuthority(call.Args[0], msgVar) {
 						if be, ok := s.Cond.(*ast.BinaryExpr); ok && be.Op == token.NEQ {
-							return "authority"
+							return "authority:ValidateAuthority"
 						}
 					}
 				}
